@@ -64,8 +64,9 @@ type (
 		varsMut                 sync.RWMutex
 	}
 	Query struct {
-		data Map
-		from []any
+		data     Map
+		from     []any
+		filtered []any
 		//processed           []any
 		distinct            bool
 		selectDefinition    SelectDefinition
@@ -1523,11 +1524,12 @@ func AggrFunExpr(query *Query, current Map, expr sqlparser.AggrFunc, opts ...Exp
 	}
 	rs, ok := query.singletonExecutions[name]
 	if !ok {
-		slice, err := AggrFuncArgReader(query, map[string]any{"*": query.from}, sqlparser.Exprs{Exprs: expr.GetArgs()})
+		all := map[string]any{"*": query.matched()}
+		slice, err := AggrFuncArgReader(query, all, sqlparser.Exprs{Exprs: expr.GetArgs()})
 		if err != nil {
 			return nil, err
 		}
-		result, err := function(query, current, nil, slice)
+		result, err := function(query, all, nil, slice)
 		if err != nil {
 			return nil, err
 		}
@@ -1794,6 +1796,7 @@ func (query *Query) exec() (result any, err error) {
 			}
 		}
 	}
+	query.filtered = slice
 	rs, err := ExecGroupBy(query, slice)
 	if err != nil {
 		return nil, err
@@ -1832,6 +1835,15 @@ FINALIZE:
 		query.options.completed()
 	}
 	return rs, nil
+}
+
+// matched returns the rows whole-table aggregates operate on: the rows that
+// passed the WHERE clause once they are known, all source rows otherwise
+func (query *Query) matched() []any {
+	if query.filtered != nil {
+		return query.filtered
+	}
+	return query.from
 }
 
 func (query *Query) execAndPostProcess() (result any, err error) {
